@@ -1,10 +1,10 @@
-// Combined driver for C09: scripted schedules on the established connection
-// (TraditionalDnsConn) and on the connection that is still dialing (lazyDnsConn).
+// Combined driver for C09: scripted schedules on the real transports' building blocks.
 package main
 
 import (
 	"verifharness/hx"
 	"verifharness/lazyx"
+	"verifharness/reusex"
 	"verifharness/tdcx"
 )
 
@@ -14,4 +14,5 @@ func main() {
 	defer w.Close()
 	tdcx.Drive(w, o, "C09", func(s string) string { return "(KTdc " + s + ")" })
 	lazyx.Drive(w, o, func(s string) string { return "(KLazy " + s + ")" })
+	reusex.Drive(w, o, func(s string) string { return "(KReuse " + s + ")" })
 }
